@@ -31,7 +31,7 @@ def configs(tier, seed):
                 out.append(dict(part='invert', x=[sx, n, f], shape=[]))
                 if (tier == 'thorough' and n <= 65) or (f == 0 and n <= 33):
                     out.append(dict(part='demorgan', x=[sx, n, f], y=[rng.choice((True, False)), n, f]))
-    for n in ((2, 5, 8) if tier == 'quick' else (1, 2, 3, 5, 8, 16, 33, 64, 70)):
+    for n in ((2, 5, 8, 63, 64) if tier == 'quick' else (1, 2, 3, 5, 8, 16, 33, 62, 63, 64, 65, 70)):
         for sx in (True, False):
             # array (x) with scalar (y): the element-wise case fxpmath supports; array-with-array raises TypeError in
             # utils.array_support (only the first argument is iterated) and is outside the statement of C13 (DESIGN.md)
